@@ -61,8 +61,17 @@ void h_ParallelFinalize(void) {
    * (heap objects of symbolic size plus unwinding exhaust the memory limit); then what ?PresetMap does between the two calls
    * (SRC/p?memory.c: map_in_sup = intCalloc(n+1)) */
 #define RUN(k) if (in_n == k) { ParallelInit(k, in_relax, &in_opt, &in_sh); in_glu.map_in_sup = intCalloc(k + 1); }
-  RUN(1) RUN(2) RUN(3) RUN(4) RUN(5) RUN(6) RUN(7) RUN(8)
-#if CAP > 8
+  RUN(1) RUN(2)
+#if CAP >= 3
+  RUN(3)
+#endif
+#if CAP >= 4
+  RUN(4)
+#endif
+#if CAP >= 5
+  RUN(5)
+#endif
+#if CAP > 5
 #error "extend RUN"
 #endif
   __CPROVER_assert(g_n_alloc == 6, "round trip: ParallelInit made five allocations (+ map_in_sup)");
